@@ -72,7 +72,8 @@ fn esc(s: &str) -> String {
 pub fn emit(kind: &str, body: &str) {
     SINK.with(|s| {
         if let Some(v) = s.borrow_mut().as_mut() {
-            if v.len() >= CAP.with(|c| c.get()) {
+            // the events closing a transform are always kept: they carry its verdict
+            if v.len() >= CAP.with(|c| c.get()) && kind != "probe" && kind != "end" {
                 return;
             }
             let seq = SEQ.with(|q| {
